@@ -69,6 +69,19 @@ def state(obj, depth=0):
     return {k: canon(v, depth) for k, v in sorted(vars(obj).items()) if k not in SKIP_ATTRS}
 
 
+def outputs(obj):
+    """what the accessor methods return after the fit (they may compute, not only hand back an attribute)"""
+    out = {}
+    for m in ('predict', 'transform', 'predict_proba'):
+        f = getattr(obj, m, None)
+        if callable(f):
+            try:
+                out['<%s()>' % m] = canon(f())
+            except Exception as e:
+                out['<%s()>' % m] = 'err ' + type(e).__name__
+    return out
+
+
 def mk_graph(g):
     import numpy as np
     from scipy import sparse
@@ -176,7 +189,11 @@ def run_history(job, trace=None):
     if trace is not None and hasattr(obj, '_c16_stop'):
         obj._c16_stop()
     # after a fit that raised, the exception is the result: the attributes are not compared
-    return {'outcome': outcome, 'state': state(obj) if outcome == 'ok' else None, 'history_errors': errors,
+    st = None
+    if outcome == 'ok':
+        st = state(obj)
+        st.update(outputs(obj))
+    return {'outcome': outcome, 'state': st, 'history_errors': errors,
             'params_after': params_after}, obj
 
 
